@@ -543,6 +543,7 @@ func (f *frame) unop(x *ssa.UnOp, st *State) bool {
 			f.regs[x] = rv
 		}
 		f.recvHook(x, ch, rv, st)
+		f.joinAtRecv(ch, rv, st)
 	default:
 		g.errorf("unsupported unary op %s", x.Op)
 		f.havocReg(x, st)
